@@ -3,7 +3,8 @@
    with -1 up to 256 slots, AliasMethod on thetas / sum(thetas) when the sum is positive.
    Repaired tree (fix: F-C02-1): when the residual is zero and no slot is left, the table alone is returned.
    _sample_one: i = getrandbits(32); J[i & 255] if it is >= 0, else the alias draw with u = i / 2^32.
-   The model takes the low byte b and the alias uniform u as two separate arguments. *)
+   The model takes the low byte b and the alias uniform u as two separate arguments.
+   Qred (reduction of a fraction to lowest terms, Qred x == x) only keeps the executable model fast. *)
 From Coq Require Import List Arith ZArith QArith Qround Bool.
 From RV Require Import Base.QB Model.StepLaw Model.Bst Model.Alias.
 Import ListNotations.
@@ -33,18 +34,18 @@ Inductive table_result : Type :=
 Definition create_table (p : list Q) : table_result :=
   let thetas := table_thetas p in
   let J := table_J p in
-  let s := qsum thetas in
+  let s := Qred (qsum thetas) in
   if Qltb 0 s then
-    let a := create_alias (map (fun t => t / s) thetas) in TableAlias J (fst a) (snd a)
+    let a := create_alias (map (fun t => Qred (t / s)) thetas) in TableAlias J (fst a) (snd a)
   else if (length (table_slots 0 (table_ks p)) =? 256)%nat then TableOnly J
   else TableError.
 
 (* unrepaired behaviour (tree 8b17bd8), kept for the refutation witness *)
 Definition create_table_old (p : list Q) : table_result :=
   let thetas := table_thetas p in
-  let s := qsum thetas in
+  let s := Qred (qsum thetas) in
   if Qltb 0 s then
-    let a := create_alias (map (fun t => t / s) thetas) in TableAlias (table_J p) (fst a) (snd a)
+    let a := create_alias (map (fun t => Qred (t / s)) thetas) in TableAlias (table_J p) (fst a) (snd a)
   else TableError.
 
 (* _sample_one with the byte b = i & 255 and the alias uniform u; None: no state can be produced *)
